@@ -1,0 +1,151 @@
+//! Verification hooks for `p2p` (compiled only with `--cfg eigerco_lumina_verif`).
+//!
+//! * (`P2p::verif_mocked()` itself lives in `p2p.rs`.)
+//! * A public, non-blocking view of the commands a mocked `P2p` receives, so that a harness
+//!   outside of this crate can play the role of the network.
+
+use celestia_proto::p2p::pb::header_request::Data;
+use celestia_types::ExtendedHeader;
+use libp2p::request_response::OutboundFailure;
+use tokio::sync::mpsc::error::TryRecvError;
+
+use super::*;
+use crate::test_utils::MockP2pHandle;
+
+/// What a header-ex request asks for.
+#[derive(Debug, Clone, PartialEq, Eq)]
+pub enum HeaderExTarget {
+    /// `Origin(0)`: the network head.
+    Head,
+    /// `Origin(h)`, `h > 0`.
+    Height(u64),
+    /// By hash.
+    Hash(Vec<u8>),
+    /// No `data` field.
+    None,
+}
+
+/// Header-ex error kinds the mocked network can answer with.
+#[derive(Debug, Clone, Copy, PartialEq, Eq)]
+pub enum HeaderExErrKind {
+    /// `HeaderExError::HeaderNotFound`
+    NotFound,
+    /// `HeaderExError::InvalidResponse`
+    InvalidResponse,
+    /// `HeaderExError::OutboundFailure(Timeout)`
+    Timeout,
+    /// `HeaderExError::OutboundFailure(ConnectionClosed)`
+    ConnectionClosed,
+}
+
+/// The response channel of one `P2pCmd::HeaderExRequest`.
+pub struct HeaderExResponder(OneshotResultSender<Vec<ExtendedHeader>, P2pError>);
+
+impl HeaderExResponder {
+    /// Answer with headers. Returns `false` if the requester is gone.
+    pub fn respond_ok(self, headers: Vec<ExtendedHeader>) -> bool {
+        self.0.send(Ok(headers)).is_ok()
+    }
+
+    /// Answer with a header-ex error. Returns `false` if the requester is gone.
+    pub fn respond_err(self, kind: HeaderExErrKind) -> bool {
+        let e = match kind {
+            HeaderExErrKind::NotFound => HeaderExError::HeaderNotFound,
+            HeaderExErrKind::InvalidResponse => HeaderExError::InvalidResponse,
+            HeaderExErrKind::Timeout => HeaderExError::OutboundFailure(OutboundFailure::Timeout),
+            HeaderExErrKind::ConnectionClosed => {
+                HeaderExError::OutboundFailure(OutboundFailure::ConnectionClosed)
+            }
+        };
+        self.0.send(Err(P2pError::HeaderEx(e))).is_ok()
+    }
+
+    /// `true` if the requester dropped the receiving side (request was cancelled).
+    pub fn is_closed(&self) -> bool {
+        self.0.is_closed()
+    }
+}
+
+/// Public view of a command received by the mocked `P2p`.
+pub enum MockedCmd {
+    /// `P2pCmd::HeaderExRequest`
+    HeaderEx {
+        /// What is requested.
+        target: HeaderExTarget,
+        /// Requested amount.
+        amount: u64,
+        /// Response channel.
+        responder: HeaderExResponder,
+    },
+    /// `P2pCmd::InitHeaderSub` (the handle keeps the channel, see `MockP2pHandle::announce_new_head`).
+    InitHeaderSub {
+        /// Head given by the syncer.
+        head: ExtendedHeader,
+    },
+    /// Any other command (debug representation).
+    Other(String),
+}
+
+/// Result of [`try_next_cmd`].
+pub enum NextCmd {
+    /// A command was queued.
+    Cmd(MockedCmd),
+    /// Nothing queued.
+    Empty,
+    /// All senders (the `P2p` and the handle's own clone) are gone.
+    Closed,
+}
+
+/// Non-blocking receive of the next command sent to the mocked `P2p`.
+pub fn try_next_cmd(handle: &mut MockP2pHandle) -> NextCmd {
+    match handle.cmd_rx.try_recv() {
+        Ok(P2pCmd::HeaderExRequest {
+            request,
+            respond_to,
+        }) => {
+            let target = match request.data {
+                Some(Data::Origin(0)) => HeaderExTarget::Head,
+                Some(Data::Origin(h)) => HeaderExTarget::Height(h),
+                Some(Data::Hash(h)) => HeaderExTarget::Hash(h),
+                None => HeaderExTarget::None,
+            };
+            NextCmd::Cmd(MockedCmd::HeaderEx {
+                target,
+                amount: request.amount,
+                responder: HeaderExResponder(respond_to),
+            })
+        }
+        Ok(P2pCmd::InitHeaderSub { head, channel }) => {
+            handle.header_sub_tx = Some(channel);
+            NextCmd::Cmd(MockedCmd::InitHeaderSub { head: *head })
+        }
+        Ok(other) => NextCmd::Cmd(MockedCmd::Other(format!("{other:?}"))),
+        Err(TryRecvError::Empty) => NextCmd::Empty,
+        Err(TryRecvError::Disconnected) => NextCmd::Closed,
+    }
+}
+
+/// `true` if header-sub was initialised and its receiving side is still alive.
+pub fn header_sub_alive(handle: &MockP2pHandle) -> bool {
+    handle
+        .header_sub_tx
+        .as_ref()
+        .is_some_and(|tx| !tx.is_closed())
+}
+
+/// Like `MockP2pHandle::announce_new_head` but reports whether the header was queued.
+pub fn announce_new_head(handle: &MockP2pHandle, header: ExtendedHeader) -> bool {
+    match handle.header_sub_tx {
+        Some(ref tx) => tx.try_send(header).is_ok(),
+        None => false,
+    }
+}
+
+/// Current peer counters of the mocked peer tracker: (connected, trusted).
+pub fn peer_counts(handle: &MockP2pHandle) -> (u64, u64) {
+    let info = handle.peer_tracker_tx.borrow();
+    (
+        info.num_connected_peers,
+        info.num_connected_trusted_peers,
+    )
+}
